@@ -63,12 +63,33 @@ def run(repo):
     assigns = sorted([n for n in ast.walk(fi.node) if isinstance(n, ast.Assign) and len(n.targets) == 1
                       and isinstance(n.targets[0], ast.Name)], key=lambda n: (n.lineno, n.col_offset))
     cur = {}            # name -> (slice key of the support rows, node)
+    inline_terms = []   # (assign, block name, term) for terms added to a block in its defining expression
     n_blocks = 0
     for n in assigns:
         name, v = n.targets[0].id, n.value
         # locals other than the multiplier matrix are read through (rest = support.linear[k:]; dual_var @ rest.T)
         vx = expand_locals(fi.node, v, depth=4, defs={k_: d_ for k_, d_ in defs.items() if k_ != dual})
         st, b, _d = pmatch('%s @ _SL[_S].T' % dual, vx)
+        if st != 'match' and isinstance(vx, ast.BinOp) and isinstance(vx.op, ast.Add):
+            # the block and the random-coefficient term written as one sum:  dual @ L[S].T + self.raffine[:, S] * c[S]
+            terms, stack = [], [vx]
+            while stack:
+                t_ = stack.pop()
+                if isinstance(t_, ast.BinOp) and isinstance(t_.op, ast.Add):
+                    stack += [t_.right, t_.left]
+                else:
+                    terms.append(t_)
+            hits = [t_ for t_ in terms if pmatch('%s @ _SL[_S].T' % dual, t_)[0] == 'match']
+            if len(hits) == 1:
+                st, b, _d = pmatch('%s @ _SL[_S].T' % dual, hits[0])
+                if b['_SL'][1].endswith('.linear'):
+                    cur[name] = (slice_key(hits[0].right.value.slice),
+                                 ast.copy_location(ast.Assign(targets=n.targets, value=hits[0]), n),
+                                 b['_SL'][1][:-len('.linear')])
+                    for t_ in terms:
+                        if t_ is not hits[0]:
+                            inline_terms.append((n, name, t_))
+                    continue
         if st == 'match' and b['_SL'][1].endswith('.linear'):
             cur[name] = (slice_key(vx.right.value.slice), ast.copy_location(ast.Assign(targets=n.targets, value=vx), n),
                          b['_SL'][1][:-len('.linear')])
@@ -127,6 +148,7 @@ def run(repo):
     #     whose constant is the cost vector of the primal after the sign changes of the dual construction
     #     (an entry is -1 where the variable's upper bound is 0): leaving the factor out mirrors those variables.
     n_terms = 0
+    cands = []
     for n in assigns:
         v = n.value
         if not any(isinstance(x, ast.Attribute) and x.attr == 'raffine' and ntext(x.value) == 'self' for x in ast.walk(v)):
@@ -135,7 +157,11 @@ def run(repo):
         if not (isinstance(v, ast.BinOp) and isinstance(v.op, ast.Add) and
                 any(isinstance(x, ast.Name) and x.id == name for x in (v.left, v.right))):
             continue                 # not an accumulation onto a block of stationarity rows
-        term = v.right if isinstance(v.left, ast.Name) and v.left.id == name else v.left
+        cands.append((n, name, v.right if isinstance(v.left, ast.Name) and v.left.id == name else v.left))
+    for n_, name_, t_ in inline_terms:
+        if any(isinstance(x, ast.Attribute) and x.attr == 'raffine' and ntext(x.value) == 'self' for x in ast.walk(t_)):
+            cands.append((n_, name_, t_))
+    for n, name, term in cands:
         term = expand_locals(fi.node, term, depth=4, defs={k_: d_ for k_, d_ in defs.items() if k_ != dual})
         n_terms += 1
         blk = cur.get(name)
